@@ -14,7 +14,9 @@
    A call (Begin) fixes the sequence of writes it will issue from what it reads; Write issues
    the next one; Crash may happen between any two writes (also during recovery); Reopen is
    New(): nothing if the flag is not 1, otherwise rebuildIndexes: per pin record re-add a
-   missing cid index entry, then a missing name index entry; finally SetClean.
+   missing cid index entry, then a missing name index entry; finally SetClean.  Before that, per
+   record, an entry of the other mode's cid index with the record's own id is removed (fault Stale);
+   entries of OTHER records of the same cid are never touched.
 
    IDEAL write order of a (re-)pin: write the new pin completely, then remove the pins it
    replaces.  Deviation Dev_C23_RepinDeleteFirst (open finding): the code removes the old pins
@@ -30,7 +32,8 @@ CONSTANTS NC,         \* cids 1..NC
           Devs,       \* enabled as-built deviations
           MaxOps,     \* calls per history
           MaxCrashes, \* crashes per history
-          SyncEvery   \* rebuildIndexes flushes after every SyncEvery checked records (50 in the code)
+          SyncEvery,  \* rebuildIndexes flushes after every SyncEvery checked records (50 in the code)
+          MaxStale    \* stale cross-mode index entries found at a reopen, per history (fault Stale)
 
 Cids == 1..NC
 RepinDev == "Dev_C23_RepinDeleteFirst"
@@ -38,20 +41,21 @@ EarlyDev == "Dev_C23_RebuildCleansEarly"
 
 VARIABLES recs, ixR, ixD, ixN, flag,        \* persistent
           memDirty, prog, phase,            \* volatile: phase \in {"idle","op","down","recover"}
-          nextId, nops, ncrash,             \* bookkeeping
+          nextId, nops, ncrash, nstale,     \* bookkeeping
           keep,                             \* cids pinned before the running call that the call does not unpin
           excused,                          \* cids a deviation (used in this history) may lose
           cur,                              \* the running / last call and its result
           dev,                              \* deviations used so far (all histories)
           rundev                            \* deviations used in this history
 disk == <<recs, ixR, ixD, ixN, flag>>
-vars == <<recs, ixR, ixD, ixN, flag, memDirty, prog, phase, nextId, nops, ncrash, keep, excused, cur, dev, rundev>>
+vars == <<recs, ixR, ixD, ixN, flag, memDirty, prog, phase, nextId, nops, ncrash, nstale, keep, excused, cur, dev, rundev>>
 
 (* ---- writes ---------------------------------------------------------------------------- *)
 W(k, id, c, mode, name) == [k |-> k, id |-> id, c |-> c, mode |-> mode, name |-> name]
 SetDirtyW == W("SetDirty", 0, 0, "", "")
 SetCleanW == W("SetClean", 0, 0, "", "")
 Ix(mode)  == IF mode = "r" THEN ixR ELSE ixD
+Other(mode) == IF mode = "r" THEN "d" ELSE "r"
 
 \* effect of one write on the datastore
 DoWrite(w) ==
@@ -108,7 +112,7 @@ Start(o, body, res, unpins, usedDev) ==
   /\ excused' = IF usedDev THEN excused \cup {o.c} ELSE excused
   /\ dev' = IF usedDev THEN dev \cup {RepinDev} ELSE dev
   /\ rundev' = IF usedDev THEN rundev \cup {RepinDev} ELSE rundev
-  /\ UNCHANGED <<disk, ncrash, nextId>>
+  /\ UNCHANGED <<disk, ncrash, nextId, nstale>>
 
 \* Pin(c, recursive, name) / PinWithMode(c, Recursive, name), fetch successful: replaces every pin of c
 BeginPinRec(c, name) ==
@@ -161,17 +165,34 @@ Write == /\ phase \in {"op", "recover"} /\ prog # <<>>
          /\ phase' = IF Len(prog) = 1 THEN "idle" ELSE phase
          /\ memDirty' = IF Head(prog).k = "SetClean" THEN FALSE ELSE memDirty
          /\ nextId' = IF Head(prog).k = "PutRecord" THEN nextId + 1 ELSE nextId   \* pin ids are never reused
-         /\ UNCHANGED <<nops, ncrash, keep, excused, cur, dev, rundev>>
+         /\ UNCHANGED <<nops, ncrash, nstale, keep, excused, cur, dev, rundev>>
 
 \* the process stops: everything volatile is lost, the datastore keeps exactly the writes issued so far
 Crash == /\ phase \in {"idle", "op", "recover"} /\ ncrash < MaxCrashes
          /\ phase' = "down" /\ prog' = <<>> /\ memDirty' = FALSE /\ ncrash' = ncrash + 1
          /\ keep' = IF phase = "idle" THEN PinnedSet ELSE keep      \* an idle crash must lose nothing
-         /\ UNCHANGED <<disk, nextId, nops, excused, cur, dev, rundev>>
+         /\ UNCHANGED <<disk, nextId, nops, nstale, excused, cur, dev, rundev>>
+
+\* Fault: while the process is down with the dirty flag set, the datastore also holds an entry of the
+\* OTHER mode's cid index for an existing pin record (same cid, same pin id) -- what an interrupted mode
+\* change of an older version left behind.  No pin record matches it (the record has the other mode):
+\* it is the one kind of index entry rebuildIndexes removes.
+Stale(id) == /\ phase = "down" /\ flag = "1" /\ nstale < MaxStale
+             /\ \E p \in recs :
+                  /\ p.id = id /\ <<p.c, p.id>> \notin Ix(Other(p.mode))
+                  /\ ixR' = IF p.mode = "d" THEN ixR \cup {<<p.c, p.id>>} ELSE ixR
+                  /\ ixD' = IF p.mode = "r" THEN ixD \cup {<<p.c, p.id>>} ELSE ixD
+             /\ nstale' = nstale + 1
+             /\ UNCHANGED <<recs, ixN, flag, memDirty, prog, phase, nextId, nops, ncrash, keep, excused, cur, dev, rundev>>
 
 \* New(): rebuildIndexes when the dirty flag is set
+\* per pin record p, in this order: remove the entry of the OTHER mode's cid index that carries p's own
+\* id (and nothing else: entries of other pin records of the same cid -- a direct and a recursive record of
+\* one cid coexist after an interrupted Update / re-pin -- belong to records that exist and must survive),
+\* re-add p's missing cid index entry, re-add p's missing name index entry
 Ok(p)      == <<p.c, p.id>> \in Ix(p.mode)
-Repairs(p) == (IF Ok(p) THEN <<>> ELSE <<W("AddCidIndex", p.id, p.c, p.mode, "")>>)
+Repairs(p) == (IF <<p.c, p.id>> \in Ix(Other(p.mode)) THEN <<W("DelCidIndex", p.id, p.c, Other(p.mode), "")>> ELSE <<>>)
+              \o (IF Ok(p) THEN <<>> ELSE <<W("AddCidIndex", p.id, p.c, p.mode, "")>>)
               \o (IF p.name # "" /\ <<p.name, p.id>> \notin ixN THEN <<W("AddNameIndex", p.id, 0, "", p.name)>> ELSE <<>>)
 RepairAll(ord) == Flat([i \in 1..Len(ord) |-> Repairs(ord[i])])
 Reopen == /\ phase = "down"
@@ -187,13 +208,13 @@ Reopen == /\ phase = "down"
                                /\ j <= SyncEvery /\ Len(ord) - j <= Cardinality(recs) - SyncEvery
                                /\ prog' = RepairAll(SubSeq(ord, 1, j)) \o <<SetCleanW>> \o RepairAll(SubSeq(ord, j + 1, Len(ord)))
                           /\ dev' = dev \cup {EarlyDev} /\ rundev' = rundev \cup {EarlyDev}
-          /\ UNCHANGED <<disk, nextId, nops, ncrash, keep, excused, cur>>
+          /\ UNCHANGED <<disk, nextId, nops, ncrash, nstale, keep, excused, cur>>
 
 Init == /\ recs = {} /\ ixR = {} /\ ixD = {} /\ ixN = {} /\ flag = "none"
         /\ memDirty = FALSE /\ prog = <<>> /\ phase = "idle"
-        /\ nextId = 1 /\ nops = 0 /\ ncrash = 0 /\ keep = {} /\ excused = {}
+        /\ nextId = 1 /\ nops = 0 /\ ncrash = 0 /\ nstale = 0 /\ keep = {} /\ excused = {}
         /\ cur = [o |-> Call("none", 0, 0, FALSE, ""), res |-> "ok"] /\ dev = {} /\ rundev = {}
-Next == Begin \/ Write \/ Crash \/ Reopen
+Next == Begin \/ Write \/ Crash \/ (\E id \in 1..(nextId - 1) : Stale(id)) \/ Reopen
 Spec == Init /\ [][Next]_vars
 
 (* ---- the property --------------------------------------------------------------------------- *)
@@ -208,10 +229,15 @@ Consistent ==
   /\ \A e \in ixN : \E p \in recs : p.id = e[2] /\ p.name = e[1]
 IndexesAgree == phase = "idle" => Consistent
 \* the reason recovery is never skipped: an inconsistent datastore always carries the dirty flag,
-\* and an index entry never outlives / precedes its record (rebuildIndexes cannot remove one)
+\* and an index entry never outlives / precedes its record (rebuildIndexes removes only cross-mode entries of existing records)
 DirtyCovers == flag # "1" => Consistent
 NoDanglingIndex == /\ \A e \in ixR \cup ixD : \E p \in recs : p.id = e[2]
                    /\ \A e \in ixN : \E p \in recs : p.id = e[2]
+
+\* the recovery removes an index entry only if no pin record matches it (id, cid and mode)
+RepairRemovesOnlyStale ==
+  phase = "recover" => \A i \in 1..Len(prog) :
+     prog[i].k = "DelCidIndex" => ~\E p \in recs : p.id = prog[i].id /\ p.c = prog[i].c /\ p.mode = prog[i].mode
 
 \* every CID pinned before the (interrupted) call that the call does not unpin is still pinned
 PinnedPreserved       == phase = "idle" => keep \subseteq PinnedSet
